@@ -17,7 +17,7 @@ use std::{
 	time::{Duration, Instant},
 };
 
-const KINDS: [&str; 6] = ["tiny_commits", "huge_transactions", "index_growth", "slow_workers", "slow_clients", "giant_transaction"];
+const KINDS: [&str; 7] = ["tiny_commits", "huge_transactions", "index_growth", "slow_workers", "slow_clients", "giant_transaction", "worker_dies_while_throttled"];
 
 fn value(client: u8, seq: u64, len: usize) -> Vec<u8> {
 	let mut v = Vec::with_capacity(len.max(10));
@@ -31,14 +31,14 @@ fn value(client: u8, seq: u64, len: usize) -> Vec<u8> {
 }
 
 pub fn run_case(ctx: &Ctx, rep: &mut Report, case_seed: u64, variant: u64) {
-	let kind = (variant % 6) as usize;
-	let always_flush = kind != 5 && (variant / 6) % 2 == 0;
+	let kind = (variant % 7) as usize;
+	let always_flush = kind != 5 && (variant / 7) % 2 == 0;
 	// shutdown requested at any moment: half of the histories drop the handle the instant the last
 	// commit call returned (queue, log and enact stages still busy) instead of waiting for the drain
 	// (not with the test-only `always_flush` option: there the log worker enacts inline and a drop
 	// with more than four uncleaned logs waits for a cleanup stage that has already left - outside
 	// the property, whose configurations are the public options)
-	let immediate = kind == 5 || (!always_flush && (variant / 12) % 2 == 1) || (!always_flush && variant % 5 == 3);
+	let immediate = kind == 5 || (!always_flush && (variant / 14) % 2 == 1) || (!always_flush && variant % 5 == 3);
 	let desc = format!("C15 case_seed={} variant={} scenario={} always_flush={} drop={}", case_seed, variant, KINDS[kind], always_flush, if immediate { "immediately" } else { "after drain" });
 	ctx.mark(&desc);
 	ctx.progress();
@@ -65,6 +65,13 @@ fn scenario(ctx: &Ctx, rep: &mut Report, case_seed: u64, variant: u64, kind: usi
 	cfg.always_flush = always_flush;
 	let opts = cfg.options(&dir.path.join("db"));
 	let db = Arc::new(Db::open_or_create(&opts).expect("open_or_create"));
+	if kind == 6 {
+		// the LOG worker itself is to fail while committers are throttled: every log file name
+		// from the third on is occupied by a directory, so creating that log file fails (EISDIR)
+		for i in 2..80 {
+			let _ = std::fs::create_dir(dir.path.join("db").join(format!("log{}", i)));
+		}
+	}
 	// delay profile
 	let profile = rng.below(4);
 	match profile {
@@ -82,17 +89,19 @@ fn scenario(ctx: &Ctx, rep: &mut Report, case_seed: u64, variant: u64, kind: usi
 		}
 	}
 	let returned = Arc::new(AtomicU64::new(0));
-	let n_clients = if kind == 5 { 1 } else if kind == 1 { rng.range(2, 3) } else { rng.range(2, 4) } as usize;
+	let refused = Arc::new(AtomicU64::new(0));
+	let n_clients = if kind == 5 { 1 } else if kind == 1 || kind == 6 { rng.range(2, 3) } else { rng.range(2, 4) } as usize;
 	let quick = ctx.tier == pv::Tier::Quick;
 	let hot = rng.below(1 << 16) as u16;
 	let mut handles = vec![];
 	for c in 0..n_clients {
 		let db = db.clone();
 		let returned = returned.clone();
+		let refused = refused.clone();
 		let mut r = rng.derive(300 + c as u64);
 		let n_tx: u64 = match kind {
 			0 => if quick { 1500 } else { 6000 },
-			1 => if quick { r.range(3, 6) } else { r.range(8, 16) },
+			1 | 6 => if quick { r.range(3, 6) } else { r.range(8, 16) },
 			2 => if quick { 50 } else { 90 },
 			3 => if quick { 300 } else { 1500 },
 			5 => 2,
@@ -105,7 +114,7 @@ fn scenario(ctx: &Ctx, rep: &mut Report, case_seed: u64, variant: u64, kind: usi
 			for seq in 1..=n_tx {
 				let mut tx = vec![];
 				match kind {
-					1 | 5 => {
+					1 | 5 | 6 => {
 						// 1 - 20 MiB per transaction; the giant one exceeds the 128 MiB limit of
 						// logged-but-unapplied bytes all by itself and is followed by a small one
 						let total = if kind == 5 { if seq == 1 { r.range(130 << 20, 142 << 20) as usize } else { 4096 } } else { r.range(1 << 20, 20 << 20) as usize };
@@ -149,6 +158,11 @@ fn scenario(ctx: &Ctx, rep: &mut Report, case_seed: u64, variant: u64, kind: usi
 				}
 				let t = Instant::now();
 				if let Err(e) = db.commit_changes(tx) {
+					if kind == 6 && matches!(e, parity_db::Error::Background(_)) {
+						// the workers are gone: the call returned, with the error, as it must
+						refused.fetch_add(1, Ordering::SeqCst);
+						break
+					}
 					err = Some(format!("commit {} of client {} failed: {}", seq, c, e));
 					break
 				}
@@ -164,6 +178,9 @@ fn scenario(ctx: &Ctx, rep: &mut Report, case_seed: u64, variant: u64, kind: usi
 	// ---- monitor: progress = a commit returned or a pipeline counter moved
 	let mut last = (0u64, 0u64, 0u64, 0usize);
 	let mut throttled = false;
+	let mut killed = false;
+	let kill_delay_ms = rng.range(0, 30);
+	let t_start = Instant::now();
 	loop {
 		std::thread::sleep(Duration::from_millis(50));
 		let st = db.verif_status();
@@ -175,9 +192,32 @@ fn scenario(ctx: &Ctx, rep: &mut Report, case_seed: u64, variant: u64, kind: usi
 		if st.queued_bytes > 16 * 1024 * 1024 {
 			throttled = true;
 		}
+		if kind == 6 && !killed {
+			// a background worker fails while committers are held back by the full queue:
+			// "throttled only while the queue exceeds its limit AND the workers are alive"
+			if st.has_bg_err {
+				killed = true;
+				rep.count("worker_failures_while_throttled", throttled as u64);
+				rep.count("log_worker_failures", 1);
+			} else if throttled && t_start.elapsed() > Duration::from_secs(5) {
+				// the log worker did not run into the blocked file name: report a failure on its behalf
+				std::thread::sleep(Duration::from_millis(kill_delay_ms));
+				db.verif_store_err(parity_db::Error::InvalidInput("worker failure injected by the monitor".into()));
+				killed = true;
+				rep.count("worker_failures_while_throttled", 1);
+			}
+		}
 		if handles.iter().all(|h| h.is_finished()) {
 			break
 		}
+	}
+	if kind == 6 && !killed {
+		// the clients finished before any worker ran into a blocked file name: this scenario never
+		// continues into the persistence checks (the blocked names would fail the shutdown too)
+		if db.verif_status().has_bg_err {
+			rep.count("log_worker_failures", 1);
+		}
+		killed = true;
 	}
 	if throttled {
 		rep.count("queue_full_throttles", 1);
@@ -195,6 +235,24 @@ fn scenario(ctx: &Ctx, rep: &mut Report, case_seed: u64, variant: u64, kind: usi
 	}
 	rep.count("commits_returned", returned.load(Ordering::SeqCst));
 	rep.evaluations += returned.load(Ordering::SeqCst);
+	if killed {
+		// every commit call has returned (the client threads were joined above); the handle must
+		// still go away; nothing is claimed about persistence after a worker failure (C16)
+		rep.count("commit_calls_released_by_worker_failure", refused.load(Ordering::SeqCst));
+		rep.seen(format!("{}|throttled{}|killed", KINDS[kind], throttled as u8));
+		ctx.mark(&format!("{} :: dropping the handle after the worker failure", desc));
+		ctx.progress();
+		let db = match Arc::try_unwrap(db) {
+			Ok(d) => d,
+			Err(_) => panic!("handle still shared"),
+		};
+		drop(db);
+		ctx.progress();
+		rep.count("drops_completed", 1);
+		rep.evaluations += 1;
+		delays::uninstall();
+		return
+	}
 	// ---- no further client activity: the queue must empty (and, with always_flush, be enacted)
 	let t0 = Instant::now();
 	let mut last = (0u64, 0u64, 0usize, 0usize);
